@@ -4,18 +4,23 @@ package c08
 
 import (
 	"bytes"
+	"expvar"
 	"fmt"
 	"image"
 	"image/color"
 	"image/jpeg"
 	"io"
+	"os"
 	"runtime"
 	"sort"
+	"strings"
+	"time"
 
 	"seehuhn.de/go/membudget"
 	"seehuhn.de/go/pdf"
 	"verif/sim/core"
 	"verif/sim/fgen"
+	"verif/sim/forge"
 	"verif/sim/gen"
 	"verif/sim/simio"
 	"verif/sim/tape"
@@ -33,12 +38,13 @@ func init() {
 			"allocation is bounded by a measured proxy: runtime.MemStats.TotalAlloc delta <= 3*StreamBudget(rawLen) + 16*bytes drained + 32 MiB (the per-stream budget limits live working memory, which cannot be observed directly); a process that exceeds RLIMIT_AS dies and is reported as a crash",
 			"output: chained Flate/LZW/RunLength stages multiply their expansion, so no input-proportional output bound exists; draining stops at 24 MiB per run. A lone CCITTFax stream must stay below MaxImagePixels/8 + 1 MiB (its geometry cap); the DCT and JBIG2 geometry caps (up to 2 GiB) are too large to drain per run and are covered only through the allocation proxy",
 		},
-		Real:     []string{"seehuhn.de/go/pdf DecodeStream, GetFilters, MakeFilter, all filters and internal codecs incl. JPEG and JBIG2 decoders (working tree)"},
-		Stub:     []string{"Getter (in-memory object table incl. cycles)", "source delivery (simio)", "memory budget argument", "consumer (early close)"},
-		Quick:    core.Budget{Runs: 120000, Secs: 150},
-		Thorough: core.Budget{Runs: 5000000, Secs: 900},
-		Run:      Run,
-		Corners:  corners,
+		Real:       []string{"seehuhn.de/go/pdf DecodeStream, GetFilters, MakeFilter, all filters and internal codecs incl. JPEG and JBIG2 decoders (working tree)"},
+		Stub:       []string{"Getter (in-memory object table incl. cycles)", "source delivery (simio)", "memory budget argument", "consumer (early close)"},
+		Quick:      core.Budget{Runs: 120000, Secs: 150},
+		Thorough:   core.Budget{Runs: 5000000, Secs: 900},
+		Run:        Run,
+		Corners:    corners,
+		WantProbes: []string{"work bound evaluated"},
 	})
 }
 
@@ -162,7 +168,8 @@ func Run(e *core.Env) {
 	var names []pdf.Name
 	var parms []pdf.Object
 	var body []byte
-	base := t.Weighted("base", 5, 3, 3, 2)
+	base := t.Weighted("base", 5, 3, 3, 2, 3, 4)
+	var globals []byte
 	baseDesc := ""
 	switch base {
 	case 0: // valid encoding of a drawn filter
@@ -245,6 +252,24 @@ func Run(e *core.Env) {
 			names = append(names, "DCTDecode")
 			parms = append(parms, nil)
 			baseDesc = "jpeg bomb"
+		}
+	case 4: // JPEG assembled marker by marker
+		body, baseDesc = forge.JPEG(t, "fj")
+		names = append(names, "DCTDecode")
+		if t.Bool("fj.ct", 1, 4) {
+			parms = append(parms, pdf.Dict{"ColorTransform": pdf.Integer(t.Draw("fj.ct.v", 2))})
+		} else {
+			parms = append(parms, nil)
+		}
+	case 5: // JBIG2 assembled segment by segment
+		body, globals, baseDesc = forge.JBIG2(t, "jb")
+		names = append(names, "JBIG2Decode")
+		if globals != nil {
+			gref := pdf.NewReference(7, 0)
+			g.objs[gref] = pdf.NewStream(pdf.Dict{}, globals)
+			parms = append(parms, pdf.Dict{"JBIG2Globals": gref})
+		} else {
+			parms = append(parms, nil)
 		}
 	default: // random bytes
 		body = gen.Bytes(t, "rand", 3000)
@@ -351,7 +376,7 @@ func Run(e *core.Env) {
 	_ = chainKey
 
 	work := func() {
-		decodeAndCheck(e, g, dict, body, names, parms, direct, closeAt, dsched, attrs)
+		decodeAndCheck(e, g, dict, body, globals, names, parms, direct, closeAt, dsched, attrs)
 	}
 	if hasDCT || t.Bool("bubble", 1, 20) {
 		e.Probe("ran in synctest bubble")
@@ -383,10 +408,11 @@ type sinkBuf struct{ bytes.Buffer }
 
 func (s *sinkBuf) Close() error { return nil }
 
-func decodeAndCheck(e *core.Env, g *getter, dict pdf.Dict, body []byte, names []pdf.Name, parms []pdf.Object, direct bool, closeAt int, dsched *simio.Schedule, attrs map[string]string) {
+func decodeAndCheck(e *core.Env, g *getter, dict pdf.Dict, body, globals []byte, names []pdf.Name, parms []pdf.Object, direct bool, closeAt int, dsched *simio.Schedule, attrs map[string]string) {
 	t := e.T
 	var ms0, ms1 runtime.MemStats
 	runtime.ReadMemStats(&ms0)
+	work0 := workNow()
 	var rc io.ReadCloser
 	var err error
 	budgetBytes := int64(8<<20) + 1024*int64(len(body))
@@ -397,6 +423,9 @@ func decodeAndCheck(e *core.Env, g *getter, dict pdf.Dict, body []byte, names []
 		pd, _ := parms[0].(pdf.Dict)
 		var f pdf.Filter
 		f, err = pdf.MakeFilter(names[0], pd)
+		if jf, ok := f.(*pdf.FilterJBIG2); ok && globals != nil {
+			jf.Globals = globals
+		}
 		if err == nil {
 			small := int64(tape.Pick(t, "budget", int64(1<<30), 0, 1, 100, 4096, 65536, 1<<20))
 			src := simio.NewReader(body, simio.NewSchedule(t, "ssched", 0))
@@ -471,6 +500,27 @@ func decodeAndCheck(e *core.Env, g *getter, dict pdf.Dict, body []byte, names []
 	} else {
 		e.Probe("decoded to the end or closed")
 	}
+	// Simulated time: the instrumentation overlay counts one tick per function
+	// entry and loop iteration inside the decoder packages.  Stages before the
+	// last one must not expand (ASCIIHex, ASCII85), otherwise the last stage
+	// legitimately works on an intermediate stream that is neither the input
+	// nor the output.
+	if workCounter != nil && workQualifies(names) {
+		ticks := workNow() - work0
+		in := int64(len(body) + len(globals))
+		e.Probe("work bound evaluated")
+		calib(ticks, in, int64(drained), budgetBytes, names, closeAt >= 0, drained > limit)
+		bound := workBound(names[len(names)-1], budgetBytes, int64(drained))
+		switch {
+		case ticks > bound/2:
+			e.Probe("work above 50% of the bound (" + string(names[len(names)-1]) + ")")
+		case ticks > bound/4:
+			e.Probe("work above 25% of the bound (" + string(names[len(names)-1]) + ")")
+		}
+		if ticks > bound {
+			e.Fail("work", map[string]string{"filter": string(names[len(names)-1])}, "%d work ticks for %d bytes of input and %d bytes of output (bound %d for a stream budget of %d): not proportional (dict %s)", ticks, in, drained, bound, budgetBytes, gen.Show(dict))
+		}
+	}
 	runtime.ReadMemStats(&ms1)
 	alloc := int64(ms1.TotalAlloc - ms0.TotalAlloc)
 	if bound := 3*budgetBytes + 16*int64(drained) + 32<<20; alloc > bound {
@@ -497,6 +547,66 @@ func errShape(err error) string {
 // error) and 2e34b46 (JPEG producer goroutine left blocked when a later stage
 // fails to build, or when the consumer closes a chain early).
 var corners = map[string]func(e *core.Env){
+	// Regression for b50e8ef: a halftone region with an empty but very tall
+	// grid (HGW=0, HGH=2^32-1) ran its per-row loops 2^32 times per bit plane.
+	"jbig2-halftone-empty-grid": func(e *core.Env) {
+		if workCounter == nil {
+			return
+		}
+		u32 := func(v uint32) []byte { return []byte{byte(v >> 24), byte(v >> 16), byte(v >> 8), byte(v)} }
+		seg := func(num uint32, typ byte, refs []byte, data []byte) []byte {
+			out := append(u32(num), typ, byte(len(refs)<<5))
+			out = append(out, refs...)
+			out = append(out, 1)
+			out = append(out, u32(uint32(len(data)))...)
+			return append(out, data...)
+		}
+		for _, dims := range [][2]uint32{{0, 0xffffffff}, {0xffffffff, 0}, {0, 1 << 31}} {
+			var body []byte
+			body = append(body, seg(0, 48, nil, append(append(u32(64), u32(64)...), make([]byte, 11)...))...)
+			pd := append([]byte{0, 4, 4}, u32(32)...)
+			body = append(body, seg(1, 16, nil, append(pd, make([]byte, 40)...))...)
+			hr := append(append(append(u32(64), u32(64)...), u32(0)...), u32(0)...)
+			hr = append(hr, 0, 1) // region flags; halftone flags: MMR
+			hr = append(hr, u32(dims[0])...)
+			hr = append(hr, u32(dims[1])...)
+			hr = append(hr, make([]byte, 8)...)
+			hr = append(hr, 1, 0, 0, 0)
+			hr = append(hr, make([]byte, 13)...)
+			body = append(body, seg(2, 22, []byte{1}, hr)...)
+			body = append(body, seg(3, 49, nil, nil)...)
+			// the source stops serving once the bound is exceeded, so that a
+			// regression costs seconds, not minutes
+			work0 := workNow()
+			f, _ := pdf.MakeFilter("JBIG2Decode", nil)
+			done := make(chan int, 1)
+			go func() {
+				n := 0
+				rc, err := f.Decode(pdf.V2_0, bytes.NewReader(body), membudget.New(8<<20+1024*int64(len(body))))
+				if err == nil {
+					b, _ := io.ReadAll(rc)
+					n = len(b)
+					rc.Close()
+				}
+				done <- n
+			}()
+			bound := workBound("JBIG2Decode", 8<<20+1024*int64(len(body)), 512)
+			for {
+				select {
+				case <-done:
+				case <-time.After(50 * time.Millisecond):
+					if workNow()-work0 <= bound {
+						continue
+					}
+				}
+				break
+			}
+			if ticks := workNow() - work0; ticks > bound {
+				e.Fail("work", map[string]string{"filter": "JBIG2Decode"}, "halftone grid %dx%d: more than %d work ticks for a %d byte stream", dims[0], dims[1], bound, len(body))
+				return
+			}
+		}
+	},
 	"type-confused-decodeparms": func(e *core.Env) {
 		g := &getter{meta: pdf.MetaInfo{Version: pdf.V1_7}, objs: map[pdf.Reference]pdf.Native{}}
 		for _, d := range []pdf.Dict{
@@ -558,4 +668,76 @@ var corners = map[string]func(e *core.Env){
 			}
 		}
 	},
+}
+
+// workCounter is the work counter that the instrumentation overlay
+// (cmd/instr -mode work) adds to the decoder packages: one tick per function
+// entry and per loop iteration.  It is the simulated time of a decode.
+var workCounter = func() []expvar.Func {
+	var out []expvar.Func
+	expvar.Do(func(kv expvar.KeyValue) {
+		if f, ok := kv.Value.(expvar.Func); ok && strings.HasPrefix(kv.Key, "verif.work.") {
+			out = append(out, f)
+		}
+	})
+	return out
+}()
+
+func workNow() int64 {
+	var n int64
+	for _, f := range workCounter {
+		n += f.Value().(int64)
+	}
+	return n
+}
+
+// The work bound is K * (per-stream budget + output), where the per-stream
+// budget is the documented affine function of the raw length (8 MiB + 1 KiB
+// per byte, capped) that also bounds memory: an image that fits the budget may
+// legitimately be traversed a bounded number of times.  K is per decoder family
+// and was calibrated on the unchanged tree (VSIM_CALIB=1): the largest ratios
+// seen were 10.5 (DCT: 64 capped passes over a progressive image of maximal
+// size; about 13 is possible by construction), 34 (JBIG2: its own allowance of
+// 64M + 4096/byte pixel operations) and 33 ticks per output byte for CCITTFax.
+// What the bound excludes is work that keeps growing without matching input or
+// output: one more pass over the image per 12-byte scan, one loop iteration per
+// unit of a 32-bit header field, and the like.
+func workBound(last pdf.Name, budget, out int64) int64 {
+	k := int64(64)
+	switch last {
+	case "DCTDecode":
+		k = 24
+	case "JBIG2Decode":
+		k = 128
+	}
+	return k * (budget + out)
+}
+
+// workQualifies: stages before the last one must not expand.
+func workQualifies(names []pdf.Name) bool {
+	if len(names) == 0 {
+		return false
+	}
+	for _, n := range names[:len(names)-1] {
+		if n != "ASCIIHexDecode" && n != "ASCII85Decode" {
+			return false
+		}
+	}
+	return true
+}
+
+var calibMax = map[string]float64{}
+
+func calib(ticks, in, out, budget int64, names []pdf.Name, closed, capped bool) {
+	if os.Getenv("VSIM_CALIB") == "" || len(names) == 0 {
+		return
+	}
+	key := fmt.Sprint(names[len(names)-1], " n=", len(names), " closed=", closed, " capped=", capped)
+	r := float64(ticks) / float64(budget+out)
+	if r > calibMax[key] && ticks > 100000 {
+		calibMax[key] = r
+		f, _ := os.OpenFile(fmt.Sprintf("/tmp/c08calib.%d", os.Getpid()), os.O_APPEND|os.O_CREATE|os.O_WRONLY, 0o644)
+		fmt.Fprintf(f, "%s\tratio=%.1f\tticks=%d\tin=%d\tout=%d\tbudget=%d\tnames=%v\n", key, r, ticks, in, out, budget, names)
+		f.Close()
+	}
 }
